@@ -47,6 +47,7 @@ func caseSeeds(seed int64, n int, prop string) []int64 {
 }
 
 var reNum = regexp.MustCompile(`[0-9]+`)
+var rePtr = regexp.MustCompile(`0x[0-9a-f]+`)
 
 // errClass maps an error message to a coarse class for the distribution report.
 func errClass(err error) string {
@@ -54,12 +55,17 @@ func errClass(err error) string {
 		return "ok"
 	}
 	m := err.Error()
+	// keep the innermost cause: the accumulation prefixes repeat per layer
+	if i := strings.LastIndex(m, "': "); i >= 0 && i+3 < len(m) {
+		m = m[i+3:]
+	}
 	if i := strings.Index(m, "\n"); i >= 0 {
 		m = m[:i]
 	}
+	m = rePtr.ReplaceAllString(m, "PTR")
 	m = reNum.ReplaceAllString(m, "N")
-	if len(m) > 60 {
-		m = m[:60]
+	if len(m) > 70 {
+		m = m[:70]
 	}
 	return "err:" + m
 }
